@@ -17,6 +17,8 @@ package operator
 
 import (
 	"context"
+	"crypto/sha256"
+	"encoding/hex"
 	"fmt"
 	"os"
 	"strconv"
@@ -868,8 +870,17 @@ func sanitizeBucketName(raw string) string {
 	if out == "" {
 		return defaultSnapshotBucketPrefix
 	}
+	// S3 bucket names are at most 63 characters. Keep the head and replace the
+	// tail with a hash of the full name so distinct clusters keep distinct buckets.
+	if len(out) > maxBucketNameLen {
+		sum := sha256.Sum256([]byte(out))
+		suffix := hex.EncodeToString(sum[:])[:10]
+		out = strings.TrimRight(out[:maxBucketNameLen-len(suffix)-1], "-") + "-" + suffix
+	}
 	return out
 }
+
+const maxBucketNameLen = 63
 
 func etcdLabels(cluster *kafscalev1alpha1.KafscaleCluster) map[string]string {
 	return map[string]string{
